@@ -25,6 +25,8 @@ def run(rep):
     p5(rep, w)
     p6(rep, w)
     p7(rep, w)
+    p8(rep, w)
+    p9(rep, w)
 
 
 def const_usize(o):
@@ -482,3 +484,68 @@ def p7(rep, w):
             'the only capacity test of the value stack is under cfg!(debug_assertions | safe_stack); call_closure bounds the frame '
             'count (FRAMES_MAX) but not a frame\'s temporaries, so STACK_MAX = LOCALS_MAX x FRAMES_MAX can be exceeded and the '
             'optimised build writes past the stack allocation', f.loc())
+
+
+def p8(rep, w):
+    import locks
+    r = rep.rule('P8', 'cycle guards of the recursive Display implementations are restored on every exit', floor=3)
+    paths = [p for p, f in w.fns.items() if f.impl_trait == 'std::fmt::Display' and p.startswith('yarel::<object::')]
+    locks.check_guards(r, w, sorted(paths))
+
+
+def p9(rep, w):
+    """a cursor into a container that the program can shrink must be guarded by a range test (`>=` / `<`) against the
+    container's length, not by an equality test: once the cursor is past the end an equality test never fires again"""
+    import c13
+    c = w.yarel
+    r = rep.rule('P9', 'indices guarded by a comparison with len() use a range test, not equality', floor=2)
+    n = 0
+    for f in sorted(c.fns.values(), key=lambda x: x.path):
+        if not f.file.endswith(('object.rs', 'core.rs', 'vm.rs')):
+            continue
+        uses = c13.index_uses(f)
+        if not uses:
+            continue
+        org = origins(f)
+        dom = f.dominators()
+
+        def ident(o):
+            k = op_const(o)
+            if k is not None:
+                return set()
+            pl = op_place(o)
+            if pl is None:
+                return set()
+            out = set()
+            toks0 = tuple(e.get('n') for e in pl.get('p', []) if isinstance(e, dict) and 'n' in e)
+            for q in org.get(pl['l'], {(('local', pl['l']),)}):
+                toks = tuple(t for t in q[1:] if not t.startswith('@') and t != '*' and not t.startswith('in ') and not t.startswith('as ')) + toks0
+                out.add(toks if toks else (q[0],))
+            return out
+
+        def is_len(o):
+            pl = op_place(o)
+            if pl is None:
+                return False
+            return any(q[0][0] == 'call' and strip_generics(q[0][2]).endswith('::len') for q in org.get(pl['l'], ()))
+        for (bi, kind, idx, base, sp) in uses:
+            ids = ident(idx)
+            if not ids:
+                continue
+            ops = []
+            for b2 in dom.get(bi, ()):
+                for s in f.blocks[b2]['s']:
+                    rr = s.get('r', {})
+                    if rr.get('rv') == 'bin' and rr['op'] in ('Eq', 'Ne', 'Lt', 'Le', 'Gt', 'Ge'):
+                        for x, y in ((rr['a'], rr['b']), (rr['b'], rr['a'])):
+                            if ident(x) & ids and is_len(y):
+                                ops.append(rr['op'])
+            if not ops:
+                continue
+            n += 1
+            key = '%s / index guarded by %s len()' % (f.path, '/'.join(sorted(set(ops))))
+            r.check(any(o in ('Lt', 'Le', 'Gt', 'Ge') for o in ops), key,
+                    'the index is compared with len() only for equality: if the container shrinks below the cursor the test never fires and the '
+                    'index goes out of bounds (host panic)', f.loc(sp))
+    if n < 2:
+        raise Broken('C02', 'floor', 'P9: only %d len()-guarded index sites found' % n)
